@@ -22,15 +22,48 @@ class DbScenario:
         self.attrs = attrs or {}
         self.executed: List[Tuple[str, V, Tuple[V, ...], bool]] = []  # (method, sql, params, inside `with conn`)
         self.with_depth = 0
+        self.fail_write: Optional[str] = None  # exception class name raised by the next execute*/executemany
+        self.batch: Optional[V] = None  # concrete result of serialize_traces (a tuple of row objects) when set
         inline = {f.fq for f in repo.module(DB).functions.values()}
         self.ri = RepoInterp(repo, self.fi, inline=inline, call_hook=self.call_hook, may_fork=(), heap=True)
         self.ri.on_attr = self.on_attr  # type: ignore[method-assign]
         self.ri.interp.on_attr = self.on_attr
 
+    KNOWN_ATTRS = ("conn", "table")
+
+    def _extra_containers(self) -> Dict[str, ast.AST]:
+        """attributes besides conn/table that __init__ initialises to an empty container (a memo somebody
+        added): they get a real heap object that lives as long as the store"""
+        from .common import _is_mutable_ctor
+        out: Dict[str, ast.AST] = {}
+        if self.fi.cls is None:
+            return out
+        init = self.repo.method(self.fi.cls, "__init__")
+        if init is None:
+            return out
+        for x in ast.walk(init.node):
+            tgt = val = None
+            if isinstance(x, ast.Assign) and len(x.targets) == 1:
+                tgt, val = x.targets[0], x.value
+            elif isinstance(x, ast.AnnAssign) and x.value is not None:
+                tgt, val = x.target, x.value
+            if isinstance(tgt, ast.Attribute) and isinstance(tgt.value, ast.Name) and tgt.value.id == "self" and tgt.attr not in self.KNOWN_ATTRS \
+                    and val is not None and _is_mutable_ctor(val):
+                out[tgt.attr] = val
+        return out
+
     def on_attr(self, obj: V, attr: str, node: ast.AST, st: State) -> Optional[V]:
         if isinstance(obj, S) and obj.name == "self":
-            return self.attrs.get(attr, S("self." + attr))
-        if isinstance(obj, R) and obj.kind in ("elem", "proj"):
+            if attr in self.attrs:
+                return self.attrs[attr]
+            extra = self._extra_containers()
+            if attr in extra:
+                key = f"__global__:self.{attr}"
+                if key not in st.env:
+                    st.env[key] = self.ri.interp.eval(extra[attr], st)
+                return st.env[key]
+            return S("self." + attr)
+        if isinstance(obj, R) and obj.kind in ("elem", "proj", "rowobj"):
             return R("attr", of=obj, name=K(attr))
         return RepoInterp.on_attr(self.ri, obj, attr, node, st)
 
@@ -42,6 +75,10 @@ class DbScenario:
             in_with = sum(1 for e in st.effects if e[0] == "with-enter" and "conn" in str(e[1])) - sum(1 for e in st.effects if e[0] == "with-exit" and "conn" in str(e[1]))
             self.executed.append((meth, args[0] if args else U("?"), tuple(st.freeze(a) for a in args[1:]), in_with > 0))
             st.effects.append(("sql", meth, st.freeze(args[0]) if args else None))
+            if self.fail_write is not None:
+                st.pending = st.pending or self.fail_write
+                self.fail_write = None
+                return U("write failed")
             return R("cursor", of=fval)
         if meth == "cursor" and conn_like:
             return R("cursor", of=fval)
@@ -52,16 +89,18 @@ class DbScenario:
             return R("rows", how=K(meth), args=K(tuple(args)))
         if d.endswith("datetime.now") or d.endswith("datetime.utcnow") or d in ("time.time",):
             return R("timestamp", how=K(d))
+        if d.split(".")[-1] == "serialize_traces" and self.batch is not None:
+            return self.batch
         if d.split(".")[-1] == "serialize_traces":
             return R("serialized", of=args[0] if args else U("?"))
         if d == "CallTraceRow" or d.endswith(".CallTraceRow"):
             return R("row_object", args=K(tuple(args)))
         return None
 
-    def run(self, env: Dict[str, V]) -> List[State]:
+    def run(self, env: Dict[str, V], carry: Optional[State] = None) -> List[State]:
         e = {"self": S("self")}
         e.update(env)
-        return self.ri.run(e)
+        return self.ri.run(e, carry=carry)
 
 
 def query(repo: Repo, with_prefix: bool) -> Tuple[str, List[V]]:
